@@ -127,7 +127,12 @@ func (w *dWorld) snapshot() dState {
 		s.Dists = append(s.Dists, [3]string{d.DistributionName, fmt.Sprint(int64(d.DistributionType)), d.Runner})
 	}
 	for _, c := range w.App.DispensationKeeper.GetClaims(ctx).UserClaims {
-		s.Claims = append(s.Claims, [2]string{c.UserAddress, fmt.Sprint(int64(c.UserClaimType))})
+		// a claim belongs to the account its address string denotes, however the string is spelled
+		ua := c.UserAddress
+		if a, err := sdk.AccAddressFromBech32(ua); err == nil {
+			ua = a.String()
+		}
+		s.Claims = append(s.Claims, [2]string{ua, fmt.Sprint(int64(c.UserClaimType))})
 	}
 	return s
 }
@@ -336,6 +341,10 @@ func RunDispHistories(c Ctx, rep *report.Report, rng *chain.Rng, n, steps int, n
 					s.Type = int64(rng.Intn(2)) // 0 or 1: not a claim type
 				}
 				m := disptypes.NewMsgCreateUserClaim(signer.Addr, disptypes.DistributionType(s.Type))
+				if rng.Intn(8) == 0 { // the all-upper-case bech32 spelling of the same address
+					m.UserClaimAddress = strings.ToUpper(m.UserClaimAddress)
+					rep.Count("claim.address-spelled-in-upper-case")
+				}
 				msg = &m
 			}
 			s.Signer = signer.Addr.String()
